@@ -1,5 +1,21 @@
 package main
 
+import "github.com/polynetwork/poly/native"
+
+type nativeHandler = native.Handler
+
 func dispatchMore(cmd string, args []string) bool {
-	return false
+	switch cmd {
+	case "witness-table":
+		witnessTable()
+	case "keys-table":
+		keysTable()
+	case "keys-record":
+		keysRecord()
+	case "keys-collide":
+		keysCollide()
+	default:
+		return false
+	}
+	return true
 }
